@@ -1,6 +1,7 @@
 import EAO.Model.Assemble
 import EAO.Model.Translate
 import EAO.Lemmas.Blocks
+import EAO.Properties.C18
 /-!
 # C03 — solver hand-off (and the block-sum theorems shared with C14)
 
@@ -199,5 +200,41 @@ theorem robust_epigraph (samples : List (List Rat)) (x : Vec) (v : Rat)
 example : robustObjective [[1, 2], [3, -1], [2, 2]] (fun j => [1, 1].getD j 0) = some (-4) := by
   decide +kernel
 example : robustObjective [] (fun _ => 0) = none := rfl
+
+end EAO.C03
+
+namespace EAO.C03
+
+/-- the feasibility version of a problem: same bounds and rows, zero objective -/
+def zeroCost (P : Problem) : Problem := { P with c := P.c.map fun _ => 0 }
+
+theorem costAt_zero (cs : List Rat) (off : Nat) (x : Vec) : costAt (cs.map fun _ => (0 : Rat)) off x = 0 := by
+  induction cs generalizing off with
+  | nil => simp [costAt]
+  | cons c cs ih => simp [costAt, ih]; grind
+
+/-- **Exact infeasibility certificate (Farkas).**  If some sign-correct multiplier vector makes the Lagrangian
+    bound of the zero-objective problem negative, the problem has no point satisfying its bounds and rows —
+    hence (a fortiori) no feasible point with the boolean flags.  The run evaluates the bound exactly over the
+    rationals for the multipliers of a phase-1 LP, so "optimisation failed ⇒ infeasible" is certified per
+    instance by this theorem, not by trust in a second solver. -/
+theorem infeasible_of_negative_bound (P : Problem) (y : List Rat) (hwf : P.WFCols) (hy : SignOK P.rows y)
+    (hneg : lagrangianUB (zeroCost P) y < 0) : ¬ ∃ x, P.FeasibleRelaxed x := by
+  rintro ⟨x, hx⟩
+  have hwf0 : (zeroCost P).WFCols := by
+    unfold Problem.WFCols Problem.n zeroCost at *
+    simpa using hwf
+  have hx0 : (zeroCost P).FeasibleRelaxed x := hx
+  have hb := EAO.C18.lagrangian_bound (zeroCost P) y hwf0 hy x hx0
+  have hv : (zeroCost P).value x = 0 := by
+    unfold Problem.value zeroCost
+    simp [costAt_zero]
+  rw [hv] at hb
+  exact absurd hneg (by grind)
+
+theorem infeasible_of_negative_bound_bool (P : Problem) (y : List Rat) (hwf : P.WFCols) (hy : SignOK P.rows y)
+    (hneg : lagrangianUB (zeroCost P) y < 0) : ¬ ∃ x, P.Feasible x := by
+  rintro ⟨x, hx⟩
+  exact infeasible_of_negative_bound P y hwf hy hneg ⟨x, hx.1⟩
 
 end EAO.C03
